@@ -22,9 +22,18 @@ package fd
 // extractAntispamRules: the threshold stored in a rule is the configured one,
 // converted; a rule configured with a positive threshold never blocks outright.
 
+// No rules configured means NO rule list (nil): IsSpam chooses between the legacy
+// exceptions and the rules by `rules == nil`; an empty non-nil list would silently switch
+// the exceptions off (C20: an event matching an exception must not be dropped).
+
 //@ func extractAntispamRules
 //@   option allow-exit yes
 //@   ghost conf int = 0
+//@   ghost nraw int = 0
+//@   ensures nraw == 0 ==> len(result0) == 0 && cap(result0) == 0 && ref(result0) == 0
+//@   callee MustArray() (r)
+//@     pure
+//@     set nraw := len(r)
 //@   requires 0 <= antispamMaintenanceInterval && antispamMaintenanceInterval <= 86400000000000
 //@   assert at "rules = append(rules, antispam.Rule{" conf > 0 ==> threshold >= 1
 //@   assert at "rules = append(rules, antispam.Rule{" conf == 0 ==> threshold == 0
@@ -87,6 +96,9 @@ package fd
 // that is neither a string nor a list of strings must not vanish silently (the
 // action would be selected by fewer tests than configured).
 
+// (Only a bare string value that starts with '/' is a regular expression; the elements of
+// a list are exact values whatever they look like - documented.)
+
 //@ func extractConditions
 //@   option check-nil yes
 //@   ghost nent int = 0
@@ -96,13 +108,16 @@ package fd
 //@   callee Get(k) (j)
 //@     pure
 //@     set nent := nent + 1
+//@   ghost gstr bool = false
 //@   callee Interface() (v)
 //@     pure
+//@     set gstr := typeis(v, "string")
 //@   callee MustMap() (m)
 //@     pure
 //@   callee ParseFieldSelector(s) (r)
 //@     pure
 //@   callee CompileRegex(s) (r, err)
+//@     requires gstr && len(s) > 0 && s[0] == '/'
 //@     pure
 //@   callee Errorf(f, a) (e)
 //@     pure
